@@ -79,14 +79,27 @@ pub fn gen_plan(property: &str, seed: u64, index: u64, _tier: Tier) -> Plan {
     }
 }
 
+/// The other pieces are enemy pieces of every kind — "every arrangement of other pieces" —
+/// including (at most one) enemy king: a blocker is a blocker whatever it is.
 fn query(gen: &mut MoveGenerator, piece: Piece, sq: u8, occ_enemy: u64, us: Color) -> u64 {
     let mut board = Board::new();
     board.put(bb(sq), piece, us).unwrap();
     let mut rest = occ_enemy & !(1u64 << sq);
+    let kinds = [Piece::Knight, Piece::Pawn, Piece::King, Piece::Bishop, Piece::Rook, Piece::Queen];
+    let mut n = (occ_enemy ^ (occ_enemy >> 17)) as usize;
+    let mut king_used = false;
     while rest != 0 {
         let s = rest.trailing_zeros() as u8;
         rest &= rest - 1;
-        board.put(bb(s), Piece::Knight, us.opposite()).unwrap();
+        let mut kind = kinds[n % kinds.len()];
+        n = n / 3 + s as usize;
+        if kind == Piece::King {
+            if king_used {
+                kind = Piece::Knight;
+            }
+            king_used = true;
+        }
+        board.put(bb(s), kind, us.opposite()).unwrap();
     }
     gen.get_attack_targets(&board, us).0
 }
